@@ -14,7 +14,7 @@ from .. import gen, model as M, refmodel as R
 K4 = list(R.KINDS)
 EST = K4 + ["ndarray"]
 OFF = K4 + ["none"]
-INFO = [(n, n) for n in range(1, 8)] + [(2, 3), (3, 2), (6, 3)]
+INFO = [(n, n) for n in range(1, 8)] + [(2, 3), (3, 2), (6, 3)] + [(2,), (3,), (6,), (2, 1, 2), (3, 3, 3), (6, 1, 6)]
 ENDPOINTS = [c for n in (1, 2, 3) for c in itertools.product(K4, repeat=n)]
 COMBOS = [("odo", ep, est, None, info, present) for ep in ENDPOINTS for est in EST for info in INFO for present in (True, False)] + \
          [("lm", ep, est, off, info, present) for ep in ENDPOINTS for est in EST for off in OFF for info in INFO for present in (True, False)]
@@ -22,8 +22,8 @@ NCOMBO = len(COMBOS)
 LM_OK = {("se2", "r2"), ("se3", "r3"), ("r2", "r2"), ("r3", "r3")}
 
 RULE = ("complete enumeration of %d configurations: edge kind (odometry, landmark) x pose class of each endpoint (1..3 endpoints, 4 classes) x estimate class (4 poses + ndarray) "
-        "x offset class (4 poses + None, landmark only) x information shape (n x n for n=1..7 and 3 non-square) x all ids present / one id absent (the edge fresh, or pre-bound to the named vertex objects / to stale twins from an earlier graph); case i is configuration "
-        "i mod N under variant i div N (vertex list order, id class and extra unrelated vertices randomised per variant; quick: 1 variant, thorough: 12); followed by binding cases: the 8 consistent configurations and whole cluster graphs under random list orders / hostile ids, look-alike pairs (a consistent edge next to one that deviates in a single attribute), and construction through the file entry point with ids beyond 2^53. distinct = configuration "
+        "x offset class (4 poses + None, landmark only) x information shape (n x n for n=1..7, 3 non-square, 3 one-dimensional and 3 three-dimensional whose first and last extents match) x all ids present / one id absent (the edge fresh, or pre-bound to the named vertex objects / to stale twins from an earlier graph); case i is configuration "
+        "i mod N under variant i div N (vertex list order, id class and extra unrelated vertices randomised per variant, ids held in a list / tuple / int64 array, every 5th construction with the library's loggers at DEBUG; quick: 1 variant, thorough: 12); followed by binding cases: the 8 consistent configurations and whole cluster graphs under random list orders / hostile ids, look-alike pairs (a consistent edge next to one that deviates in a single attribute), and construction through the file entry point with ids beyond 2^53. distinct = configuration "
         "x variant; non-trivial = every configuration (each is a different point of the finite space)." % NCOMBO)
 NBIND = {"quick": 1200, "thorough": 40000}
 PLAN = {
@@ -93,10 +93,53 @@ def binding_case(ctx, i, rng):
     ctx.nontrivial("bind:%d" % i)
 
 
+def mkinfo(info):
+    return np.eye(*info) if len(info) == 2 and info[0] == info[1] else np.ones(info)
+
+
+class _DebugLogging:
+    """The library's loggers switched to DEBUG with a handler attached (an application debugging its SLAM pipeline) for the duration of a construction."""
+
+    def __enter__(self):
+        import logging
+
+        self.lg = logging.getLogger("graphslam")
+        self.h = logging.NullHandler()
+        self.h.setLevel(logging.DEBUG)
+        self.old = self.lg.level
+        self.lg.addHandler(self.h)
+        self.lg.setLevel(logging.DEBUG)
+        self.kids = []
+        for name, obj in list(logging.root.manager.loggerDict.items()):
+            if name.startswith("graphslam.") and isinstance(obj, logging.Logger):
+                self.kids.append((obj, obj.level, obj.propagate))
+                obj.setLevel(logging.DEBUG)
+                obj.propagate = False
+                obj.addHandler(self.h)
+        return self
+
+    def __exit__(self, *a):
+        self.lg.setLevel(self.old)
+        self.lg.removeHandler(self.h)
+        for obj, lvl, prop in self.kids:
+            obj.setLevel(lvl)
+            obj.propagate = prop
+            obj.removeHandler(self.h)
+        return False
+
+
+class _Plain:
+    def __enter__(self):
+        return self
+
+    def __exit__(self, *a):
+        return False
+
+
 def make_edge_for(cfg, ids, vr):
     kind, ep, est, off, info, present = cfg
     estimate = np.array([0.5, 0.25]) if est == "ndarray" else M.mkpose(est, gen.mild_pose(vr, est))
-    information = np.eye(*info) if info[0] == info[1] else np.ones(info)
+    information = mkinfo(info)
     if kind == "odo":
         return M.EdgeOdometry(list(ids), information, estimate)
     offset = None if off == "none" else M.mkpose(off, gen.mild_pose(vr, off, 0.5))
@@ -209,7 +252,7 @@ def run_case(ctx, i, rng):
         order = vr.permutation(len(listed))
         listed = [listed[int(j)] for j in order]
     estimate = np.array([0.5, 0.25]) if est == "ndarray" else M.mkpose(est, gen.mild_pose(vr, est))
-    information = np.eye(*info) if info[0] == info[1] else np.ones(info)
+    information = mkinfo(info)
     # edge state that survives from before construction: the edge may arrive pre-bound (constructor argument vertices=...) to the named vertex objects,
     # or to stale twins of them from an "earlier graph"; construction must (re)bind by id against *this* graph's list, or refuse
     prebound = [None, "named", "stale"][(i // NCOMBO + i) % 3] if (variant or not present) else None
@@ -218,19 +261,31 @@ def run_case(ctx, i, rng):
         pre = list(named)
     elif prebound == "stale":
         pre = [M.Vertex(v.id, v.pose.copy()) for v in named]
+    # the ids may be held in a list, a tuple or an integer array (the loader produces lists; client code is free to pass the others)
+    container = "list"
+    if variant:
+        container = ["list", "tuple", "ndarray"][int(vr.integers(3))]
+        if container == "ndarray" and not all(type(x) is int and abs(x) < 2 ** 62 for x in ids):
+            container = "tuple"
+    edge_ids = list(ids) if container == "list" else tuple(ids) if container == "tuple" else np.array(ids, dtype=np.int64)
+    ctx.count("ids_container:" + container)
     if kind == "odo":
-        e = M.EdgeOdometry(list(ids), information, estimate, vertices=pre)
+        e = M.EdgeOdometry(edge_ids, information, estimate, vertices=pre)
     else:
         offset = None if off == "none" else M.mkpose(off, gen.mild_pose(vr, off, 0.5))
-        e = M.EdgeLandmark(list(ids), information, estimate, offset, offset_id=0, vertices=pre)
+        e = M.EdgeLandmark(edge_ids, information, estimate, offset, offset_id=0, vertices=pre)
+    debug_logging = bool((i % 5 == 0) or (variant and vr.random() < 0.3))
+    if debug_logging:
+        ctx.count("constructed_with_debug_logging_enabled")
     ctx.count("edge_prebound:%s" % prebound)
     exp = consistent(*cfg)
     ctx.count("consistent_configurations" if exp else "inconsistent_configurations")
-    feats = {"prebound": prebound, "edge": kind, "endpoints": "-".join(ep), "estimate": est, "offset": off, "info": "%dx%d" % info, "ids_present": present, "expected_consistent": exp}
+    feats = {"prebound": prebound, "ids_container": container, "debug_logging": debug_logging, "edge": kind, "endpoints": "-".join(ep), "estimate": est, "offset": off, "info": "x".join(str(n) for n in info), "ids_present": present, "expected_consistent": exp}
     case = {"configuration": {"edge": kind, "endpoints": list(ep), "estimate": est, "offset": off, "info": list(info), "ids_present": present}, "variant": variant}
     raised = None
     try:
-        g = M.Graph([e], listed)
+        with (_DebugLogging() if debug_logging else _Plain()):
+            g = M.Graph([e], listed)
     except Exception as ex:
         raised = type(ex).__name__
     accepted = raised is None
